@@ -8,6 +8,7 @@
 //
 //	conc <seed> <goroutines> <ops>   goroutines use one real AdaptedClientPool concurrently (see execConc)
 //	slowrr / slowres …               removal while a slow reflection resolution is in flight (see slow.go)
+//	cstream / connrace / newrace …   AdaptedClientConn.Stream timing and context, Close racing Stream, New racing New (see conn.go)
 //
 // cfg = p<0|1>r<0|1>: p1 = reflection polling enabled (1s interval), p0 = WithDisabledReflectionPolling;
 // r1 = the target server serves the reflection API, r0 = it does not (every resolution fails).
@@ -223,7 +224,13 @@ var (
 func (Area) Extra() map[string]any {
 	statMu.Lock()
 	defer statMu.Unlock()
-	return map[string]any{"inflight_call_end_codes": statCodes, "op_result_histogram": statOps, "leak_samples": statLeak}
+	raceMu.Lock()
+	rh := map[string]int{}
+	for k, v := range raceHist {
+		rh[k] = v
+	}
+	raceMu.Unlock()
+	return map[string]any{"stream_vs_close_race_results": rh, "inflight_call_end_codes": statCodes, "op_result_histogram": statOps, "leak_samples": statLeak}
 }
 
 func newEnv(refl bool) *env {
@@ -672,6 +679,15 @@ func execLine(input string) string {
 	if len(f) > 0 && f[0] == "conc" {
 		return execConc(f)
 	}
+	if len(f) > 0 && f[0] == "cstream" {
+		return execCStream(f)
+	}
+	if len(f) > 0 && f[0] == "connrace" {
+		return execConnRace(f)
+	}
+	if len(f) > 0 && f[0] == "newrace" {
+		return execNewRace(f)
+	}
 	if len(f) > 0 && f[0] == "slowrr" {
 		return execSlowRouter(f)
 	}
@@ -840,6 +856,29 @@ func (Area) Gen(r *rand.Rand, tier string, emit func(string)) {
 	} {
 		emit(l)
 	}
+	// 1c. AdaptedClientConn in detail (conn.go): Stream against controlled connectivity with the halved wait, the
+	// deadline the target is told, Close racing Stream; and pool.New racing itself.
+	for _, l := range []string{
+		"cstream 1200 ready 1", "cstream 1200 ready 0", "cstream 1200 hold1 1", "cstream 1200 hold3 0",
+		"cstream 1200 refuse 0", "cstream 1200 hang 1", "cstream 0 hold1 0", "cstream 0 ready 1",
+	} {
+		emit(l)
+	}
+	nrace := 25
+	if tier == "thorough" {
+		nrace = 300
+		for _, l := range []string{
+			"cstream 2000 hold1 0", "cstream 2000 hold3 1", "cstream 2000 refuse 1", "cstream 2000 hang 0",
+			"cstream 800 hold3 1", "cstream 800 refuse 0", "cstream 1600 hold2 1", "cstream 0 hold2 1",
+		} {
+			emit(l)
+		}
+	}
+	for k := 0; k < nrace; k++ {
+		emit(fmt.Sprintf("connrace %d %d", r.Intn(1_000_000), 2+r.Intn(10)))
+		emit(fmt.Sprintf("newrace %d %d", r.Intn(1_000_000), 2+r.Intn(7)))
+	}
+
 	// Router level: the request timeout is the fixed 10 s default, one case costs 11–13 s.
 	emit("slowrr 1500 50 1 0")
 	if tier == "thorough" {
